@@ -3,7 +3,7 @@
 # Applies the seeded change to /repo, runs the named checks, reverts /repo straight afterwards.
 set -u
 D="$(readlink -f "$1")"; shift
-cd /verif
+cd "${EVAL_VERIF_DIR:-/verif}"   # a snapshot of /verif may be used so that the harness can be edited meanwhile
 if [ -n "$(git -C /repo status --porcelain --untracked-files=no)" ]; then echo "eval_seeded: /repo is not clean"; exit 2; fi
 git -C /repo apply "$D/patch.diff" || { echo "eval_seeded: patch does not apply"; exit 2; }
 trap 'git -C /repo checkout -q -- .' EXIT
